@@ -52,8 +52,17 @@ EXPLANATION = (
     'own matrix to the compiled estimator; (D3.domain) no buffer declaration '
     'of the compiled estimator restricts the memory layout (mode="c"/"fortran") '
     'unless every caller / initialiser provably yields that layout; (D5) the returned T and pi are X/rowsum(X) and '
-    'rowsum/total. Optimality against every reversible competitor and the '
-    '`assert c <= 0` rounding question are not decided.')
+    'rowsum/total; (D1.running-sum-rederived) if the sweep asserts the sign of '
+    'an expression containing `row sum - summand`, the incrementally updated '
+    'row sums are re-derived from X between any two sweeps that reach the '
+    'assertion (CFG paths round the iteration loop); (D3.root.no-cancellation) '
+    'no case of the new pair value is a sum t + sqrt(t**2 + e) unless the '
+    'implementation\'s own sign tests establish t >= 0 in that case (truth '
+    'table over the syntactic conditions; the reference accepts the '
+    'rationalised root -2c/(b + sqrt(D)) exactly where b > 0); '
+    '(D3.domain.dtype) every call of the compiled estimator passes an '
+    'expression that is float64 by construction. Optimality against every '
+    'reversible competitor is not decided.')
 
 REFERENCE = {
     # Prinz et al. 2011, eqs. for the reversible MLE (as in msmbuilder)
@@ -62,6 +71,8 @@ REFERENCE = {
     'b': 'C_rs[i] * (X_rs[j] - X[i,j]) + C_rs[j] * (X_rs[i] - X[i,j]) - (C[i,j] + C[j,i]) * (X_rs[i] + X_rs[j] - 2*X[i,j])',
     'c': '-(C[i,j] + C[j,i]) * (X_rs[i] - X[i,j]) * (X_rs[j] - X[i,j])',
     'v': '(-b + sqrt(b*b - 4*a*c)) / (2*a)',
+    # the same root with the numerator rationalised: defined (and free of cancellation) exactly where b > 0
+    'v_pos_b': '(-2*c) / (b + sqrt(b*b - 4*a*c))',
     'rs_i': 'X_rs[i] + (v - X[i,j])',
     'rs_j': 'X_rs[j] + (v - X[j,i])',
 }
@@ -86,6 +97,26 @@ X_rs[j] = %(rs_j)s
 X[i, j] = v
 X[j, i] = v
 ''' % REFERENCE
+# The positive root may be spelled in its cancellation-free form WHERE b > 0: there
+# `b + sqrt(D)` > 0, so both spellings are the same partial function.  Where b <= 0 only
+# the textbook form is accepted (for c == 0 the rationalised form is 0/0 there - seed C12B).
+REF_PAIR_STABLE = '''
+a = %(a)s
+b = %(b)s
+c = %(c)s
+if a == 0:
+    v = X[j, i]
+else:
+    if 0 < b:
+        v = %(v_pos_b)s
+    else:
+        v = %(v)s
+X_rs[i] = %(rs_i)s
+X_rs[j] = %(rs_j)s
+X[i, j] = v
+X[j, i] = v
+''' % REFERENCE
+REF_ALTS = {'pair': (REF_PAIR_STABLE,)}
 # which reference equation a stored cell / scalar stands for (messages only)
 REF_OF = {'X[i,i]': 'diag', 'X[i,j]': 'v', 'X[j,i]': 'v', 'X_rs[i]': 'rs_i', 'X_rs[j]': 'rs_j'}
 
@@ -261,17 +292,26 @@ def same_partial(g, w):
     return 'far', 'equality could not be established symbolically'
 
 
-def cmp_tree(got, want):
-    """Compare two decision trees as functions of their conditions."""
-    cs = sorted(_conds(got) | _conds(want))
+def cmp_tree(got, want, alts=()):
+    """Compare two decision trees as functions of their conditions.  `alts`:
+    further reference trees; in every case (assignment of the conditions) the
+    value has to equal that of `want` or of one of the alternatives."""
+    allc = _conds(got) | _conds(want)
+    for al in alts:
+        allc |= _conds(al)
+    cs = sorted(allc)
     if len(cs) > 6:
         return 'far', 'too many case distinctions'
     worst, why = 'match', ''
     for bits in itertools.product((True, False), repeat=len(cs)):
         g, w = got, want
+        others = list(alts)
         for c, pol in zip(cs, bits):
             g, w = _restrict(g, c, pol), _restrict(w, c, pol)
+            others = [_restrict(o, c, pol) for o in others]
         v, r = same_partial(g, w)
+        if v != 'match' and any(same_partial(g, o)[0] == 'match' for o in others):
+            v = 'match'
         if v == 'match':
             continue
         case = ' and '.join('%s%s(%s)' % ('' if pol else 'not ', c[0], c[1][:60]) for c, pol in zip(cs, bits))
@@ -821,6 +861,7 @@ def sweep_model(ck, r):
                 ex.run(prelude)
             ex.run_body(L.body)
             ref = _run_reference(ref_src)
+            ref_alts = [_run_reference(src) for src in REF_ALTS.get(tag, ())]
         except (AnalysisIncomplete, _Escape) as e:
             ck.missing(rule, '%s: body of the %s update loop not executable symbolically: %s' % (impl, tag, e))
             continue
@@ -836,7 +877,7 @@ def sweep_model(ck, r):
                 ck.bad(rule, mod, L, F, '%s: %s' % (impl, k), '%s: the %s update never stores %s (reference: %s = %s)' % (
                     impl, tag, k, REF_OF[k], REFERENCE[REF_OF[k]]))
                 continue
-            v, why = cmp_tree(ex.phase1[k], ref.phase1[k])
+            v, why = cmp_tree(ex.phase1[k], ref.phase1[k], [al.phase1[k] for al in ref_alts])
             model['%s.%s' % (tag, k)] = ex.phase1[k]
             node = ex.where.get(k) or L
             construct = '%s: %s' % (impl, u(node)[:150])
@@ -847,7 +888,7 @@ def sweep_model(ck, r):
                 # name the first intermediate that already differs from its reference counterpart
                 for nm in ('a', 'b', 'c', 'v'):
                     if nm in ex.scalars1 and nm in ref.scalars1 and nm in ex.where:
-                        v2, why2 = cmp_tree(ex.scalars1[nm], ref.scalars1[nm])
+                        v2, why2 = cmp_tree(ex.scalars1[nm], ref.scalars1[nm], [al.scalars1[nm] for al in ref_alts if nm in al.scalars1])
                         if v2 != 'match':
                             node = ex.where[nm]
                             construct = '%s: %s' % (impl, u(node)[:150])
@@ -867,6 +908,11 @@ def sweep_model(ck, r):
             if all_ok:
                 ck.ok(rule + '.order', mod, ex.where.get('X_rs[i]') or L, 'row-sum updates use the value X[i,j] had before the store',
                       'row sums are updated with the OLD X[i,j] (the final row sums equal X_rs + (v - X_old))')
+        if tag == 'pair' and 'X[i,j]' in ex.phase1:
+            try:
+                _root_cancellation(ck, r, L, ex)
+            except (AnalysisIncomplete, AttributeError, KeyError, IndexError, TypeError, ValueError, RecursionError) as e:
+                ck.missing('C12.D3.root.no-cancellation', '%s: new value of the pair not analysable (%r)' % (impl, e))
         # assertions inside the update (informational: `assert c <= 0` is not decided)
         model['_asserts.%s' % tag] = sorted(_show(a, 400) for a in ex.asserts)
         # the likelihood term and its guard
@@ -874,6 +920,103 @@ def sweep_model(ck, r):
         model['%s.logl' % tag] = acc
         _log_guard(ck, r, tag, L, ex, acc)
     return model
+
+
+def _sign_known_nonneg(t, on, off):
+    """The case (conditions `on` hold, conditions `off` do not) implies t >= 0.
+    Conditions are the syntactic sign tests of the implementation:
+    ('P', e): e > 0, ('NN', e): e >= 0."""
+    sp = _sp()
+    pos, neg = str(sp.expand(t)), str(sp.expand(-t))
+    return (('P', pos) in on or ('NN', pos) in on        # t > 0 / t >= 0 holds
+            or ('P', neg) in off or ('NN', neg) in off)   # not (-t > 0) / not (-t >= 0)
+
+
+def _cancelling_sums(leaf):
+    """Sums of the shape  k*(t + sqrt(t**2 + e))  inside `leaf`: (t, e, text).
+    For t < 0 such a sum is the difference of the two non-negative numbers
+    sqrt(t**2 + e) and |t|, which agree to all digits as soon as |e| < eps*t**2
+    (and exactly when e == 0): its floating-point value then has no correct
+    digit (it is exactly 0 for a true value of about e / (2|t|))."""
+    sp = _sp()
+    out = []
+    if isinstance(leaf, bool):
+        return out
+    half = sp.Rational(1, 2)
+    for A in sp.preorder_traversal(leaf):
+        if not A.is_Add:
+            continue
+        for arg in A.args:
+            k, root = arg.as_coeff_Mul()
+            if not (root.is_Pow and root.exp == half and k.is_number and k != 0):
+                continue
+            R = sp.expand(root.base)
+            t = (A - arg) / k
+            t2 = sp.expand(t ** 2)
+            e = sp.expand(R - t2)
+            nR, ne = (len(sp.Add.make_args(x)) for x in (R, e))
+            # the radicand CONTAINS t**2: subtracting t**2 cancels monomials of the radicand
+            if t != 0 and ne < nR:
+                out.append((t, e, '%s + sqrt((%s)**2 + e)' % (_short(t), _short(t))))
+    return out
+
+
+def _short(x, n=70):
+    t = str(x)
+    return t if len(t) <= n else t[:n] + '...'
+
+
+def _root_cancellation(ck, r, L, ex):
+    """Every case of the new pair value is free of the cancelling form
+    `t + sqrt(t**2 + e)` with t of unknown or negative sign.  The sign of t
+    in a case is what the implementation's own sign tests (truth table over
+    the syntactic conditions of the value's decision tree) establish."""
+    rule = 'C12.D3.root.no-cancellation'
+    sp = _sp()
+    mod, F, impl = r.mod, r.fn.name, r.impl
+    vt = ex.phase1['X[i,j]']
+    node = ex.where.get('X[i,j]') or L
+    for nm, val in ex.scalars1.items():
+        if nm in ex.where and _teq(val, vt) and isinstance(ex.where[nm], ast.stmt):
+            node = ex.where[nm]
+            break
+    cs = sorted(_conds(vt))
+    if len(cs) > 6:
+        ck.missing(rule, '%s: too many case distinctions in the new pair value' % impl)
+        return
+    found, bad = 0, None
+    for bits in itertools.product((True, False), repeat=len(cs)):
+        leaf = vt
+        for c, pol in zip(cs, bits):
+            leaf = _restrict(leaf, c, pol)
+        on = {c for c, pol in zip(cs, bits) if pol}
+        off = {c for c, pol in zip(cs, bits) if not pol}
+        # impossible sign combinations of one quantity (e > 0 but not e >= 0)
+        if any(c[0] == 'P' and ('NN', c[1]) in off for c in on):
+            continue
+        for t, e, txt in _cancelling_sums(leaf):
+            found += 1
+            if not _sign_known_nonneg(t, on, off) and bad is None:
+                case = ' and '.join('%s%s(%s)' % ('' if pol else 'not ', c[0], _short(c[1], 40)) for c, pol in zip(cs, bits)) or 'always'
+                bad = (t, e, case)
+    if not found:
+        ck.ok(rule, mod, node, '%s: new pair value' % impl, 'no sum of the form t + sqrt(t**2 + e) in the new value')
+        return
+    if bad is None:
+        ck.ok(rule, mod, node, '%s: root of the pair quadratic' % impl,
+              'every sum t + sqrt(t**2 + e) is evaluated only where the sign tests establish t >= 0 (no cancellation)')
+        return
+    if not _closed(vt):
+        ck.missing(rule, '%s: the new pair value involves operands outside the located roles' % impl)
+        return
+    t, e, case = bad
+    ck.bad(rule, mod, node, F, '%s: root of the pair quadratic' % impl,
+           '%s: the new X[i,j] is `t + sqrt(t**2 + e)` with t = -b, e = -4ac = %s [case %s] and no sign test establishes t >= 0: '
+           'for b > 0 (the ordinary case) this subtracts two nearly equal numbers; once |4ac| < 2**-52 * b**2 (stationary weights '
+           'of i and j ~1e16 apart, e.g. eight links with 100:1 counts) sqrt returns b exactly and X[i,j] becomes exactly 0: an '
+           'observed transition gets probability 0 (log-likelihood -inf, below the transpose estimate) and is returned as converged. '
+           'Use -2c / (b + sqrt(D)) where b > 0, the textbook form where b <= 0 (t = %s)'
+           % (impl, _short(sp.factor(e) if len(str(e)) < 2000 else e, 60), _short(case, 60), _short(t, 60)))
 
 
 def _log_guard(ck, r, tag, L, ex, acc):
@@ -1003,6 +1146,99 @@ def d1_no_exact_float_asserts(ck, mod, fn):
                          'AssertionError for admissible counts (e.g. a state whose only neighbour is j) instead of returning a model'
                          % (u(diffs[0])[:60] if diffs else '', u(s)[:60]))
     return n
+
+
+def d1_running_sums(ck, r):
+    """A running sum (X_rs: initialised from X, then only ever changed by
+    `X_rs[k] = X_rs[k] + delta` inside the iteration) carries the rounding of
+    every increment of every earlier sweep: its error is absolute, of the size
+    eps * (largest value it ever had), while the sums themselves may shrink by
+    orders of magnitude over the (up to max_iter) sweeps.  A SIGN test on a
+    difference `X_rs[k] - X[k, l]` (mathematically >= 0: a row sum minus one of
+    its non-negative summands) is then decided by that stale error.  Necessary
+    condition for "never an internal assertion failure": if the sweep asserts
+    the sign of an expression containing such a difference, the running sums
+    are re-derived from X (X_rs = X.sum(axis=1)) in every sweep, i.e. no path
+    leads from the assertion round the iteration loop back to the assertion
+    without passing a re-derivation."""
+    rule = 'C12.D1.running-sum-rederived'
+    mod, fn, fi, impl, loop = r.mod, r.fn, r.fi, r.impl, r.loop
+    F = fn.name
+    X, R = r.X, r.Xrs
+
+    def is_cell(e, arr):
+        return isinstance(e, ast.Subscript) and isinstance(e.value, ast.Name) and e.value.id == arr
+
+    # sign assertions inside the sweep on an expression that contains X_rs[..] - <term with a cell of X> (either order)
+    sites = []
+    for a in ast.walk(loop):
+        if not isinstance(a, ast.Assert):
+            continue
+        for c in conjuncts(a.test, True) or []:
+            if not isinstance(c, Cmp) or c.op not in (ast.Lt, ast.LtE, ast.Gt, ast.GtE):
+                continue
+            hit = None
+            for side in (c.lhs, c.rhs):
+                e = fi.expand(side, strict=False, stop=r.states)
+                for b in ast.walk(e):
+                    if isinstance(b, ast.BinOp) and isinstance(b.op, ast.Sub) and (
+                            (is_cell(b.left, R) and any(is_cell(x, X) for x in ast.walk(b.right))) or
+                            (is_cell(b.right, R) and any(is_cell(x, X) for x in ast.walk(b.left)))):
+                        hit = b
+                        break
+                if hit is not None:
+                    break
+            if hit is not None:
+                sites.append((a, hit))
+                break
+    if not sites:
+        ck.ok(rule, mod, loop, '%s: no sign assertion on a difference row sum - summand inside the sweep' % impl,
+              'nothing in the sweep aborts on the sign of a rounding-prone difference')
+        return
+    # how X_rs changes inside the iteration
+    incremental, rederive, other = [], [], []
+    sumforms = CS('%s.sum(axis=1)' % X, '%s.sum(axis=-1)' % X, '%s.sum(1)' % X, '%s.sum(-1)' % X)
+    for st in ast.walk(loop):
+        if isinstance(st, ast.AugAssign):
+            tg = st.target
+            if is_cell(tg, R):
+                incremental.append(st)
+            elif isinstance(tg, ast.Name) and tg.id == R:
+                other.append(st)
+        elif isinstance(st, (ast.Assign, ast.AnnAssign)) and getattr(st, 'value', None) is not None:
+            for tg in (st.targets if isinstance(st, ast.Assign) else [st.target]):
+                if is_cell(tg, R):
+                    ev = fi.expand(st.value, strict=False, stop=r.states)
+                    # the new value of the cell is a function of its own previous value
+                    (incremental if any(is_cell(x, R) and u(x.slice) == u(tg.slice) for x in ast.walk(ev)) else other).append(st)
+                elif isinstance(tg, ast.Name) and tg.id == R:
+                    if fi.xu(st.value, stop=r.states) in sumforms:
+                        rederive.append(st)
+                    else:
+                        other.append(st)
+                elif isinstance(tg, (ast.Tuple, ast.List)) and any(isinstance(x, ast.Name) and x.id == R for x in ast.walk(tg)):
+                    other.append(st)
+    uncovered = [a for a, _ in sites
+                 if fi.cfg.reachable(a, loop, avoiding=rederive) and fi.cfg.reachable(loop, a, avoiding=rederive)]
+    a0, d0 = sites[0]
+    construct = '%s: running row sums vs. sign assertion on `row sum - summand` in the sweep' % impl
+    if not uncovered:
+        ck.ok(rule, mod, rederive[0] if rederive else a0, construct,
+              'the row sums are re-derived from X between any two sweeps that reach the assertion (%s)' % u(rederive[0])[:60])
+        return
+    if other:
+        ck.missing(rule, '%s: `%s` changes the row sums inside the iteration in a way the rule does not model' % (impl, u(other[0])[:80]))
+        return
+    if not incremental:
+        ck.missing(rule, '%s: no incremental update of the row sums found inside the iteration' % impl)
+        return
+    ck.bad(rule, mod, uncovered[0], F, construct,
+           '%s: inside `for %s in %s` the row sums %s are initialised once and then only updated incrementally (`%s`), while `%s` '
+           'asserts the sign of an expression containing `%s`: the rounding of all earlier increments stays in %s as an ABSOLUTE '
+           'error while the row sums of a strongly directional chain shrink by a factor of several per sweep, so the difference '
+           '(exactly 0 for a state with one neighbour) turns negative beyond any fixed relative tolerance: AssertionError instead of '
+           'a model (e.g. 9-state line, 300 counts forward / 1 back). Re-derive %s = %s.sum(axis=1) in every sweep' % (
+               impl, u(loop.target), u(loop.iter), R, u(incremental[0])[:45], u(uncovered[0])[:30], u(d0)[:30], R, R, X))
 
 
 def _in_loop(mod, node, fn):
@@ -1712,11 +1948,80 @@ def d3_layout(ck, rx, mp):
                 ck.missing(rule, '%s: %s - layout of the assigned value `%s` not decided' % (
                     F, decl, u(unknown[0][1])[:60] if unknown else '?'))
     ck.floor(rule, n, 4, 'buffer declarations in %s' % F)
-    # dtype: informational (the dispatcher passes the matrix on without conversion)
+
+
+_F64 = ('float', 'np.float64', 'np.double', 'numpy.float64', "'float64'", "'f8'", "'d'", "'double'")
+
+
+def _yields_float64(e):
+    """The expression is an ndarray whose dtype is float64 whatever the dtype
+    of its operand (frozen numpy facts: explicit dtype= / astype)."""
+    from ..match import match_any
+    pats = []
+    for t in _F64:
+        pats += ['np.asarray(__, dtype=%s)' % t, 'np.asanyarray(__, dtype=%s)' % t, 'np.ascontiguousarray(__, dtype=%s)' % t,
+                 'np.array(__, dtype=%s)' % t, 'np.array(__, dtype=%s, order=__)' % t, 'np.array(__, dtype=%s, copy=__)' % t,
+                 'np.require(__, dtype=%s)' % t, 'np.require(__, dtype=%s, requirements=__)' % t,
+                 '__.astype(%s)' % t, '__.astype(%s).copy()' % t, '__.astype(%s, order=__)' % t,
+                 'np.ascontiguousarray(__.astype(%s))' % t, 'np.asarray(__, %s)' % t, 'np.array(__, %s)' % t]
+    return match_any(pats, e) is not None
+
+
+def d3_dtype(ck, rx, mp):
+    """Sibling agreement on the DOMAIN, element type: `_prinz_mle_py` converts
+    its argument (C12.D4.copy: astype(float)) and therefore accepts integer and
+    float32 counts; a `np.ndarray[np.float64_t, ndim=2]` argument makes Cython's
+    buffer acquisition raise ValueError("Buffer dtype mismatch") for every other
+    dtype.  Argument / parameter agreement: every call of the compiled estimator
+    in the package passes an expression whose dtype is float64 by construction
+    (dtype-provenance of the argument expression)."""
+    rule = 'C12.D3.domain.dtype'
+    mod, fn = rx.mod, rx.fn
+    F = fn.name
     at = getattr(fn, 'cy_argtypes', {}).get(rx.C)
-    if at is not None and at.is_buffer and at.elem and 'float' in at.elem:
-        ck.observe('C12.D3.domain.dtype', mod, fn, '%s accepts only %s buffers for `%s`; _prinz_mle_py converts with astype(float): '
-                   'integer count matrices reach the compiled estimator only through a caller that converts them' % (F, at.elem, rx.C))
+    if at is None or not at.is_buffer or not at.elem:
+        ck.ok(rule, mod, fn, '%s: `%s` is not a typed buffer' % (F, rx.C), 'no element type is imposed on the caller')
+        return
+    if at.elem not in ('np.float64_t', 'np.double_t', 'double', 'np.npy_float64', 'np.npy_double'):
+        ck.missing(rule, '%s: element type %s of `%s` not in the table' % (F, at.elem, rx.C))
+        return
+    pos = params(fn).index(rx.C)
+    n = 0
+    for m2 in (mp, mod):
+        for q, f2 in m2.functions.items():
+            for c in calls_in(f2):
+                if (call_name(c) or '').split('.')[-1] != F:
+                    continue
+                n += 1
+                a = c.args[pos] if pos < len(c.args) and not any(isinstance(x, ast.Starred) for x in c.args[:pos + 1]) else kwarg(c, rx.C)
+                if a is None:
+                    ck.missing(rule, '%s::%s: count-matrix argument of `%s` not explicit' % (m2.rel.split('/')[-1], f2.name, u(c)[:60]))
+                    continue
+                f2i = finfo(m2, f2)
+                e = f2i.expand(a)
+                construct = '%s: element type of the count matrix handed to the compiled estimator' % f2.name
+                if _yields_float64(e):
+                    ck.ok(rule, m2, c, construct, '`%s` is float64 for every input dtype' % u(e)[:60])
+                    continue
+                srcs = {x.id for x in ast.walk(e) if isinstance(x, ast.Name) and isinstance(x.ctx, ast.Load)} - {'np', 'numpy'}
+                bare = isinstance(e, ast.Name) or (isinstance(e, ast.Call) and not any(k.arg == 'dtype' for k in e.keywords)
+                                                    and call_name(e) in ('np.asarray', 'np.ascontiguousarray', 'np.asanyarray', 'np.array',
+                                                                         'np.require') and len(e.args) == 1 and isinstance(e.args[0], ast.Name)) \
+                    or (isinstance(e, ast.Call) and isinstance(e.func, ast.Attribute) and e.func.attr == 'copy' and not e.args
+                        and isinstance(e.func.value, ast.Name))
+                from_param = bool(srcs) and all(
+                    set(f2i.defs_of_use(x)) == {'PARAM'} for x in ast.walk(a) if isinstance(x, ast.Name) and x.id in srcs and x.id in params(f2))
+                if bare and srcs <= set(params(f2)) and from_param:
+                    ck.bad(rule, m2, c, f2.name, construct,
+                           '%s passes its own argument `%s` to %s unconverted, and %s declares `%s` as np.ndarray[%s, ndim=%s]: Cython\'s '
+                           'buffer acquisition raises ValueError("Buffer dtype mismatch") for every other dtype - int64 (what '
+                           'assigns_to_counts produces), int32, float32 - while the pure-Python sibling converts with astype(float) and '
+                           'returns the MLE: the two implementations do not agree on integer count matrices. Convert at the call: '
+                           'np.asarray(%s, dtype=np.float64)' % (f2.name, u(e)[:40], F, F, rx.C, at.elem, at.ndim, u(e)[:40]))
+                else:
+                    ck.missing(rule, '%s::%s: dtype of `%s` handed to %s not decided' % (m2.rel.split('/')[-1], f2.name, u(e)[:60], F))
+    if n == 0:
+        ck.observe(rule, mod, fn, '%s accepts only %s buffers for `%s` and has no caller in the package' % (F, at.elem, rx.C))
 
 
 # ---------------------------------------------------------------------------
@@ -1770,6 +2075,9 @@ def check(ck):
         _guarded(ck, 'C12.D5.result', d5_result, r)
     if len(models) == 2:
         d3_siblings(ck, rp, models[0], rx, models[1])
+    for r in (rp, rx):
+        if r is not None:
+            _guarded(ck, 'C12.D1.running-sum-rederived', d1_running_sums, r)
     n = d1_no_exact_float_asserts(ck, mp, fp) + d1_no_exact_float_asserts(ck, mx, fx)
     ck.floor('C12.D1.no-exact-float-assert', n, 8, 'assertions in the two estimators')
     # work on a float copy (python): the definition of C that reaches the iteration
@@ -1799,6 +2107,7 @@ def check(ck):
     # the compiled sibling accepts every memory layout the Python one accepts
     if rx is not None:
         _guarded(ck, 'C12.D3.domain.layout', lambda ck_, r_: d3_layout(ck_, r_, mp), rx)
+        _guarded(ck, 'C12.D3.domain.dtype', lambda ck_, r_: d3_dtype(ck_, r_, mp), rx)
     check_no_arg_mutation(ck, 'C12.D6.inputs-unmodified', [(BU, 'mle'), (BU, '_prinz_mle_py'), (LM, '_mle_prinz_dense'), (BU, '_prinz_mle')])
     # _prinz_mle dispatch
     d4_dispatch(ck, mp)
